@@ -256,6 +256,8 @@ func checkC02(c *Ctx) Meta {
 	c.Rule("C02-KEYS", "writer and reader agree on the durable layout: every key some operation writes is read back by the loader (or by export), every key the loader requires is written when a keystore is created or imported, and the computed-key pairs (account row, public-key entries, account ids) have their reader", 12)
 	c.Rule("C02-PROV", "the loader installs what it read: each durable-image field of the AddrManager returned by loadAddrManager derives from the read of its own key (remark←remark, masterKeyPub←mpub, masterKeyPriv←mpriv, cryptoKeyPub←cpub, cryptoKeyPrivEncrypted←cpriv, counters and branch keys from their own branch, addresses from the public-key bucket)", 10)
 	c.Rule("C02-PAIR", "memory and store change together: for every mutating operation, a durable key written in its transaction has its in-memory field refreshed in the same operation and vice versa", 12)
+	c.Rule("C02-TXRUN", "what is acknowledged was committed: db.Update/db.View return the error of BeginTx, of the body and of Commit on every path, and db.Update reports success only after tx.Commit (premise of: the reopened image equals the acknowledged one)", 5)
+	checkTxRunner(c, "C02-TXRUN")
 	c.Rule("C02-OPEN", "opening loads every keystore listed in the account-id bucket, fails as a whole when one fails, and the public passphrase is verified (DeriveKey on the stored parameters) before anything is decrypted or returned", 4)
 
 	c.Rule("C02-STORE", "deleting a keystore bucket removes its nested buckets: nested buckets live under unrelated key prefixes (depth-prefixed paths), so (*LDBBucket).DeleteBucket must enumerate them through the bucket-name index (BucketNames) and delete each, recursively or in a loop", 1)
@@ -616,7 +618,7 @@ func c02Pair(c *Ctx) {
 			continue
 		}
 		hasWrite := false
-		for _, s := range txSites(op) {
+		for _, s := range txSitesBody(op) {
 			if s.Write {
 				hasWrite = true
 			}
